@@ -1,16 +1,21 @@
-"""Partition-representative evaluation of small arithmetic / boolean expressions.
+"""Partition-representative evaluation of small pure functions taken from the analysed source.
 
-The analysed program is never executed.  An expression taken from its syntax tree is evaluated
-by THIS evaluator over an environment of representative values chosen by the rule (one per cell
-of a finite partition of the input domain: boundary values, values on either side of a
-threshold).  Only the constructs below are understood; anything else raises Undecided and the
-obligation is reported as undecided, never as a verdict.
+The analysed program is never imported or executed.  A function's syntax tree is interpreted by
+THIS evaluator over representative values chosen by the rule - one per cell of a finite partition
+of the input domain (boundary values, values on either side of a threshold, one value per float
+class).  Only the constructs below are understood; anything else raises Undecided and the
+obligation is reported as undecided, never as a verdict.  Calls into the analysed package are
+resolved through the source index and interpreted the same way; calls that leave the package are
+either in the table of pure builtins below or Undecided.
 """
 
 from __future__ import annotations
 
 import ast
+import collections.abc
 import math
+import numbers
+import sys
 
 from .index import norm
 
@@ -20,169 +25,522 @@ class Undecided(Exception):
 
 
 class Raises(Exception):
-    """The evaluated expression raises (the class name is the payload)."""
+    """The evaluated code raises (payload: exception class name)."""
+
+    def __init__(self, name: str, detail: str = ""):
+        super().__init__(name)
+        self.name = name
+        self.detail = detail
 
 
-_FUNCS = {
-    "int": int,
-    "float": float,
-    "max": max,
-    "min": min,
-    "abs": abs,
-    "round": round,
-    "len": len,
-    "bool": bool,
-    "math.floor": math.floor,
-    "math.ceil": math.ceil,
-    "math.isinf": math.isinf,
-    "math.isnan": math.isnan,
-    "math.isfinite": math.isfinite,
-    "math.trunc": math.trunc,
+class _Return(Exception):
+    def __init__(self, value):
+        self.value = value
+
+
+class Token(str):
+    """Symbolic constant (enum member, opaque object) compared by identity of its text."""
+
+
+class Closure:
+    def __init__(self, params, body, env, interp, is_lambda):
+        self.params, self.body, self.env, self.interp, self.is_lambda = params, body, env, interp, is_lambda
+
+
+EXC_PARENTS = {
+    "OverflowError": "ArithmeticError",
+    "ZeroDivisionError": "ArithmeticError",
+    "FloatingPointError": "ArithmeticError",
+    "ArithmeticError": "Exception",
+    "TypeError": "Exception",
+    "ValueError": "Exception",
+    "UnicodeDecodeError": "ValueError",
+    "UnicodeEncodeError": "ValueError",
+    "KeyError": "LookupError",
+    "IndexError": "LookupError",
+    "LookupError": "Exception",
+    "AttributeError": "Exception",
+    "AssertionError": "Exception",
+    "RuntimeError": "Exception",
+    "NotImplementedError": "RuntimeError",
+    "StopIteration": "Exception",
+    "Exception": "BaseException",
 }
+
+
+def exc_matches(name: str, handler_names) -> bool:
+    cur = name.split(".")[-1]
+    seen = set()
+    while cur and cur not in seen:
+        if cur in handler_names:
+            return True
+        seen.add(cur)
+        cur = EXC_PARENTS.get(cur, "BaseException" if cur != "BaseException" else "")
+    return False
+
+
+TYPES = {
+    "int": int, "float": float, "str": str, "bytes": bytes, "bytearray": bytearray, "bool": bool, "complex": complex,
+    "list": list, "tuple": tuple, "set": set, "frozenset": frozenset, "dict": dict, "type": type, "object": object,
+    "numbers.Number": numbers.Number, "Number": numbers.Number, "numbers.Real": numbers.Real, "numbers.Integral": numbers.Integral,
+    "Sized": collections.abc.Sized, "Iterable": collections.abc.Iterable, "Sequence": collections.abc.Sequence, "Mapping": collections.abc.Mapping,
+    "Collection": collections.abc.Collection, "Hashable": collections.abc.Hashable,
+    "BaseException": BaseException, "Exception": Exception, "NoneType": type(None),
+}
+
+PURE = {
+    "int": int, "float": float, "max": max, "min": min, "abs": abs, "round": round, "len": len, "bool": bool, "str": str, "repr": repr,
+    "ord": ord, "chr": chr, "range": range, "sorted": sorted, "sum": sum, "any": any, "all": all, "list": list, "tuple": tuple, "set": set,
+    "enumerate": enumerate, "zip": zip, "divmod": divmod, "pow": pow, "complex": complex, "type": type, "hash": hash, "bytes": bytes,
+    "math.floor": math.floor, "math.ceil": math.ceil, "math.isinf": math.isinf, "math.isnan": math.isnan, "math.isfinite": math.isfinite,
+    "math.trunc": math.trunc, "math.copysign": math.copysign, "math.sqrt": math.sqrt, "math.fabs": math.fabs, "math.isclose": math.isclose,
+    "math.log": math.log, "math.exp": math.exp, "isclass": lambda x: isinstance(x, type), "inspect.isclass": lambda x: isinstance(x, type),
+    "issubclass": issubclass,
+}
+CONSTS = {"inf": math.inf, "math.inf": math.inf, "math.nan": math.nan, "math.pi": math.pi, "sys.float_info.min": sys.float_info.min,
+          "sys.float_info.max": sys.float_info.max, "sys.float_info.epsilon": sys.float_info.epsilon, "sys.maxsize": sys.maxsize}
+STR_METHODS = {"startswith", "endswith", "lstrip", "rstrip", "strip", "lower", "upper", "split", "rpartition", "partition", "replace", "join",
+               "removeprefix", "removesuffix", "decode", "encode", "isdigit", "format", "count", "find", "is_integer", "real", "imag", "hex", "bit_length",
+               "conjugate", "as_integer_ratio", "get", "keys", "values", "items", "index", "copy", "union", "intersection"}
 
 _BIN = {
-    ast.Add: lambda a, b: a + b,
-    ast.Sub: lambda a, b: a - b,
-    ast.Mult: lambda a, b: a * b,
-    ast.Div: lambda a, b: a / b,
-    ast.FloorDiv: lambda a, b: a // b,
-    ast.Mod: lambda a, b: a % b,
-    ast.Pow: lambda a, b: a**b,
+    ast.Add: lambda a, b: a + b, ast.Sub: lambda a, b: a - b, ast.Mult: lambda a, b: a * b, ast.Div: lambda a, b: a / b,
+    ast.FloorDiv: lambda a, b: a // b, ast.Mod: lambda a, b: a % b, ast.Pow: lambda a, b: a**b, ast.BitOr: lambda a, b: a | b,
+    ast.BitAnd: lambda a, b: a & b, ast.BitXor: lambda a, b: a ^ b, ast.LShift: lambda a, b: a << b, ast.RShift: lambda a, b: a >> b,
 }
 _CMP = {
-    ast.Lt: lambda a, b: a < b,
-    ast.LtE: lambda a, b: a <= b,
-    ast.Gt: lambda a, b: a > b,
-    ast.GtE: lambda a, b: a >= b,
-    ast.Eq: lambda a, b: a == b,
-    ast.NotEq: lambda a, b: a != b,
-    ast.Is: lambda a, b: a is b,
-    ast.IsNot: lambda a, b: a is not b,
-    ast.In: lambda a, b: a in b,
-    ast.NotIn: lambda a, b: a not in b,
+    ast.Lt: lambda a, b: a < b, ast.LtE: lambda a, b: a <= b, ast.Gt: lambda a, b: a > b, ast.GtE: lambda a, b: a >= b,
+    ast.Eq: lambda a, b: a == b, ast.NotEq: lambda a, b: a != b, ast.Is: lambda a, b: a is b, ast.IsNot: lambda a, b: a is not b,
+    ast.In: lambda a, b: a in b, ast.NotIn: lambda a, b: a not in b,
 }
+_PYEXC = (ZeroDivisionError, OverflowError, TypeError, ValueError, AttributeError, KeyError, IndexError, UnicodeError)
 
 
-def ev(e: ast.AST, env: dict):
-    """env maps normalised source text of names / attribute chains / calls to representative values."""
-    t = norm(e)
-    if t in env:
-        return env[t]
-    if isinstance(e, ast.Constant):
-        return e.value
-    if isinstance(e, ast.Name):
-        if e.id in ("inf",):
-            return math.inf
-        raise Undecided(f"no representative for `{e.id}`")
-    if isinstance(e, ast.Attribute):
-        if t in ("math.inf",):
-            return math.inf
-        if t in ("math.nan",):
-            return math.nan
-        raise Undecided(f"no representative for `{t}`")
-    if isinstance(e, ast.UnaryOp):
-        v = ev(e.operand, env)
-        if isinstance(e.op, ast.Not):
-            return not v
-        if isinstance(e.op, ast.USub):
-            return -v
-        if isinstance(e.op, ast.UAdd):
-            return +v
-        raise Undecided("unary op")
-    if isinstance(e, ast.BinOp):
-        f = _BIN.get(type(e.op))
-        if f is None:
-            raise Undecided("binary op")
-        a, b = ev(e.left, env), ev(e.right, env)
-        try:
-            return f(a, b)
-        except (ZeroDivisionError, OverflowError, TypeError, ValueError) as exc:
-            raise Raises(type(exc).__name__) from None
-    if isinstance(e, ast.BoolOp):
-        if isinstance(e.op, ast.And):
-            v = True
+def _guard(f, *a, **k):
+    try:
+        return f(*a, **k)
+    except _PYEXC as exc:
+        raise Raises(type(exc).__name__, str(exc)) from None
+
+
+class Interp:
+    """resolver(dotted name, module) -> (FunctionDef, Module) | None resolves calls into the analysed package.
+    identity: names of calls treated as identity on their first argument; sinks: names of calls recorded, not evaluated."""
+
+    def __init__(self, resolver=None, identity=(), sinks=(), max_steps: int = 200000, on_store=None):
+        self.resolver = resolver
+        self.identity = set(identity)
+        self.sinks = set(sinks)
+        self.sink_calls: list[tuple[str, list, dict]] = []
+        self.steps = 0
+        self.max_steps = max_steps
+        self.on_store = on_store
+
+    # ------------------------------------------------------------------ expressions
+    def ev(self, e: ast.AST, env: dict, mod=None):
+        self.steps += 1
+        if self.steps > self.max_steps:
+            raise Undecided("step budget exhausted")
+        t = None
+        if isinstance(e, (ast.Name, ast.Attribute, ast.Subscript, ast.Call)):
+            t = norm(e)
+            if t in env:
+                return env[t]
+        if isinstance(e, ast.Constant):
+            return e.value
+        if isinstance(e, ast.Name):
+            if e.id in CONSTS:
+                return CONSTS[e.id]
+            if e.id in ("True", "False", "None"):
+                return {"True": True, "False": False, "None": None}[e.id]
+            if e.id in TYPES:
+                return TYPES[e.id]
+            raise Undecided(f"no representative for `{e.id}`")
+        if isinstance(e, ast.Attribute):
+            if t in CONSTS:
+                return CONSTS[t]
+            if t in TYPES:
+                return TYPES[t]
+            try:
+                base = self.ev(e.value, env, mod)
+            except Undecided:
+                # symbolic constant such as an enum member
+                return Token(t)
+            if isinstance(base, Token):
+                return Token(f"{base}.{e.attr}")
+            if e.attr in ("real", "imag", "numerator", "denominator", "__name__", "__class__", "__mro__", "__bases__", "__qualname__", "__module__") and not isinstance(base, dict):
+                return _guard(getattr, base, e.attr)
+            if isinstance(base, dict) and e.attr in base:
+                return base[e.attr]
+            raise Undecided(f"attribute `{t}`")
+        if isinstance(e, ast.UnaryOp):
+            v = self.ev(e.operand, env, mod)
+            if isinstance(e.op, ast.Not):
+                return not v
+            if isinstance(e.op, ast.USub):
+                return _guard(lambda: -v)
+            if isinstance(e.op, ast.UAdd):
+                return _guard(lambda: +v)
+            if isinstance(e.op, ast.Invert):
+                return _guard(lambda: ~v)
+        if isinstance(e, ast.BinOp):
+            f = _BIN.get(type(e.op))
+            if f is None:
+                raise Undecided("binary op")
+            a, b = self.ev(e.left, env, mod), self.ev(e.right, env, mod)
+            if isinstance(a, type) and isinstance(b, type) and isinstance(e.op, ast.BitOr):
+                return (a, b)
+            if isinstance(a, tuple) and isinstance(b, type) and isinstance(e.op, ast.BitOr) and all(isinstance(x, type) for x in a):
+                return (*a, b)
+            return _guard(f, a, b)
+        if isinstance(e, ast.BoolOp):
+            v = None
             for x in e.values:
-                v = ev(x, env)
-                if not v:
+                v = self.ev(x, env, mod)
+                if isinstance(e.op, ast.And) and not v:
+                    return v
+                if isinstance(e.op, ast.Or) and v:
                     return v
             return v
-        v = False
-        for x in e.values:
-            v = ev(x, env)
-            if v:
-                return v
-        return v
-    if isinstance(e, ast.Compare):
-        left = ev(e.left, env)
-        for op, c in zip(e.ops, e.comparators):
-            right = ev(c, env)
-            f = _CMP.get(type(op))
-            if f is None:
-                raise Undecided("compare op")
-            if not f(left, right):
-                return False
-            left = right
-        return True
-    if isinstance(e, ast.IfExp):
-        return ev(e.body, env) if ev(e.test, env) else ev(e.orelse, env)
-    if isinstance(e, ast.Call):
+        if isinstance(e, ast.Compare):
+            left = self.ev(e.left, env, mod)
+            for op, c in zip(e.ops, e.comparators):
+                right = self.ev(c, env, mod)
+                f = _CMP[type(op)]
+                if isinstance(left, Token) or isinstance(right, Token):
+                    if isinstance(op, (ast.Eq, ast.Is)):
+                        r = str(left) == str(right) and type(left) is type(right)
+                    elif isinstance(op, (ast.NotEq, ast.IsNot)):
+                        r = not (str(left) == str(right) and type(left) is type(right))
+                    else:
+                        raise Undecided("ordering of symbolic constants")
+                else:
+                    r = _guard(f, left, right)
+                if not r:
+                    return r
+                left = right
+            return True
+        if isinstance(e, ast.IfExp):
+            return self.ev(e.body, env, mod) if self.ev(e.test, env, mod) else self.ev(e.orelse, env, mod)
+        if isinstance(e, (ast.Tuple, ast.List)):
+            vals = []
+            for x in e.elts:
+                if isinstance(x, ast.Starred):
+                    vals.extend(self.ev(x.value, env, mod))
+                else:
+                    vals.append(self.ev(x, env, mod))
+            return tuple(vals) if isinstance(e, ast.Tuple) else vals
+        if isinstance(e, ast.Set):
+            return {self.ev(x, env, mod) for x in e.elts}
+        if isinstance(e, ast.Dict):
+            return {self.ev(k, env, mod): self.ev(v, env, mod) for k, v in zip(e.keys, e.values)}
+        if isinstance(e, ast.Subscript):
+            base = self.ev(e.value, env, mod)
+            if isinstance(e.slice, ast.Slice):
+                lo = self.ev(e.slice.lower, env, mod) if e.slice.lower else None
+                hi = self.ev(e.slice.upper, env, mod) if e.slice.upper else None
+                st = self.ev(e.slice.step, env, mod) if e.slice.step else None
+                return _guard(lambda: base[lo:hi:st])
+            idx = self.ev(e.slice, env, mod)
+            return _guard(lambda: base[idx])
+        if isinstance(e, ast.JoinedStr):
+            out = []
+            for v in e.values:
+                if isinstance(v, ast.Constant):
+                    out.append(v.value)
+                else:
+                    val = self.ev(v.value, env, mod)
+                    spec = self.ev(v.format_spec, env, mod) if v.format_spec is not None else ""
+                    if v.conversion == ord("r"):
+                        val = repr(val)
+                    elif v.conversion == ord("s"):
+                        val = str(val)
+                    out.append(_guard(format, val, spec))
+            return "".join(out)
+        if isinstance(e, ast.Lambda):
+            return Closure([a.arg for a in e.args.args], e.body, dict(env), self, True)
+        if isinstance(e, (ast.ListComp, ast.GeneratorExp, ast.SetComp)):
+            res = []
+            self._comp(e, 0, dict(env), mod, res)
+            return set(res) if isinstance(e, ast.SetComp) else res
+        if isinstance(e, ast.Call):
+            return self.call(e, env, mod)
+        raise Undecided(f"expression `{norm(e)[:60]}`")
+
+    def _comp(self, e, i, env, mod, out):
+        if i == len(e.generators):
+            out.append(self.ev(e.elt, env, mod))
+            return
+        g = e.generators[i]
+        it = self.ev(g.iter, env, mod)
+        for v in _guard(list, it):
+            self._bind(g.target, v, env)
+            if all(self.ev(c, env, mod) for c in g.ifs):
+                self._comp(e, i + 1, env, mod, out)
+
+    def call(self, e: ast.Call, env, mod):
         name = norm(e.func)
-        f = _FUNCS.get(name)
-        if f is None or e.keywords:
-            raise Undecided(f"call `{name}`")
-        args = [ev(a, env) for a in e.args]
+        args = []
+        for a in e.args:
+            if isinstance(a, ast.Starred):
+                args.extend(self.ev(a.value, env, mod))
+            else:
+                args.append(self.ev(a, env, mod))
+        kwargs = {k.arg: self.ev(k.value, env, mod) for k in e.keywords if k.arg}
+        if name in self.sinks:
+            self.sink_calls.append((name, args, kwargs))
+            return None
+        if name in self.identity:
+            return args[0]
+        if name == "isinstance":
+            typ = args[1]
+            if isinstance(args[0], Token):
+                return False
+            return _guard(isinstance, args[0], typ)
+        fval = env.get(name)
+        if isinstance(fval, Closure):
+            return fval.interp.apply(fval, args, kwargs, mod)
+        if name in PURE and not (isinstance(e.func, ast.Name) and e.func.id in env):
+            return _guard(PURE[name], *args, **kwargs)
+        if self.resolver is not None:
+            r = self.resolver(name, mod)
+            if r is not None:
+                fn, fmod = r
+                return self.run_function(fn, args, kwargs, fmod)
+        if isinstance(e.func, ast.Attribute) and e.func.attr in STR_METHODS:
+            try:
+                base = self.ev(e.func.value, env, mod)
+            except Undecided:
+                base = None
+            if base is not None and not isinstance(base, (Token, Closure)):
+                return _guard(getattr(base, e.func.attr), *args, **kwargs)
+        raise Undecided(f"call `{name}`")
+
+    def apply(self, clo: Closure, args, kwargs, mod):
+        env = dict(clo.env)
+        for p, a in zip(clo.params, args):
+            env[p] = a
+        env.update(kwargs)
+        if clo.is_lambda:
+            return self.ev(clo.body, env, mod)
         try:
-            return f(*args)
-        except (ZeroDivisionError, OverflowError, TypeError, ValueError) as exc:
-            raise Raises(type(exc).__name__) from None
-    if isinstance(e, (ast.Tuple, ast.List)):
-        return tuple(ev(x, env) for x in e.elts)
-    raise Undecided(f"expression `{t[:60]}`")
+            self.block(clo.body, env, mod)
+        except _Return as r:
+            return r.value
+        return None
+
+    def run_function(self, fn, args, kwargs, mod):
+        env = {}
+        a = fn.args
+        names = [x.arg for x in [*a.posonlyargs, *a.args]]
+        defaults = dict(zip(reversed(names), reversed(a.defaults)))
+        for i, n in enumerate(names):
+            if i < len(args):
+                env[n] = args[i]
+            elif n in kwargs:
+                env[n] = kwargs[n]
+            elif n in defaults:
+                env[n] = self.ev(defaults[n], {}, mod)
+            elif n in ("self", "cls"):
+                env[n] = Token(n)
+            else:
+                raise Undecided(f"missing argument `{n}` of {fn.name}")
+        for k, d in zip(a.kwonlyargs, a.kw_defaults):
+            if k.arg in kwargs:
+                env[k.arg] = kwargs[k.arg]
+            elif d is not None:
+                env[k.arg] = self.ev(d, {}, mod)
+        try:
+            self.block(fn.body, env, mod)
+        except _Return as r:
+            return r.value
+        return None
+
+    # ------------------------------------------------------------------ statements
+    def _bind(self, target, value, env):
+        if isinstance(target, ast.Name):
+            env[target.id] = value
+        elif isinstance(target, (ast.Tuple, ast.List)):
+            vals = _guard(list, value)
+            if len(vals) != len(target.elts):
+                raise Raises("ValueError", "unpack")
+            for t, v in zip(target.elts, vals):
+                self._bind(t, v, env)
+        else:
+            env[norm(target)] = value
+            if self.on_store is not None:
+                self.on_store(norm(target), value)
+
+    def block(self, stmts, env, mod=None):
+        for s in stmts:
+            self.stmt(s, env, mod)
+
+    def stmt(self, s, env, mod):
+        self.steps += 1
+        if self.steps > self.max_steps:
+            raise Undecided("step budget exhausted")
+        if isinstance(s, ast.Expr):
+            if isinstance(s.value, ast.Constant):
+                return
+            if isinstance(s.value, ast.Call) and norm(s.value.func).split(".")[0] in ("_LOGGER", "LOGGER", "logging", "_logger") or (isinstance(s.value, ast.Call) and norm(s.value.func).startswith("self._logger")):
+                return
+            self.ev(s.value, env, mod)
+            return
+        if isinstance(s, (ast.Assign, ast.AnnAssign)):
+            if s.value is None:
+                return
+            v = self.ev(s.value, env, mod)
+            for tg in s.targets if isinstance(s, ast.Assign) else [s.target]:
+                self._bind(tg, v, env)
+            return
+        if isinstance(s, ast.AugAssign):
+            cur = self.ev(s.target, env, mod)
+            v = _guard(_BIN[type(s.op)], cur, self.ev(s.value, env, mod))
+            self._bind(s.target, v, env)
+            return
+        if isinstance(s, ast.If):
+            self.block(s.body if self.ev(s.test, env, mod) else s.orelse, env, mod)
+            return
+        if isinstance(s, ast.Return):
+            raise _Return(self.ev(s.value, env, mod) if s.value is not None else None)
+        if isinstance(s, ast.Raise):
+            if s.exc is None:
+                raise Raises(env.get("__active_exc__", "Exception"))
+            name = norm(s.exc.func) if isinstance(s.exc, ast.Call) else norm(s.exc)
+            raise Raises(name.split(".")[-1])
+        if isinstance(s, ast.Assert):
+            if not self.ev(s.test, env, mod):
+                raise Raises("AssertionError", norm(s.test)[:80])
+            return
+        if isinstance(s, (ast.Pass, ast.Import, ast.ImportFrom, ast.Global, ast.Nonlocal)):
+            return
+        if isinstance(s, ast.With):
+            self.block(s.body, env, mod)
+            return
+        if isinstance(s, ast.Try):
+            try:
+                try:
+                    self.block(s.body, env, mod)
+                except Raises as exc:
+                    for h in s.handlers:
+                        names = None
+                        if h.type is not None:
+                            elts = h.type.elts if isinstance(h.type, ast.Tuple) else [h.type]
+                            names = {norm(x).split(".")[-1] for x in elts}
+                        if names is None or exc_matches(exc.name, names):
+                            if h.name:
+                                env[h.name] = Token(f"<{exc.name}>")
+                            env["__active_exc__"] = exc.name
+                            self.block(h.body, env, mod)
+                            break
+                    else:
+                        raise
+                else:
+                    self.block(s.orelse, env, mod)
+            finally:
+                if s.finalbody:
+                    self.block(s.finalbody, env, mod)
+            return
+        if isinstance(s, ast.For):
+            it = self.ev(s.iter, env, mod)
+            broke = False
+            for v in _guard(list, it):
+                self._bind(s.target, v, env)
+                try:
+                    self.block(s.body, env, mod)
+                except _Break:
+                    broke = True
+                    break
+                except _Continue:
+                    continue
+            if not broke:
+                self.block(s.orelse, env, mod)
+            return
+        if isinstance(s, ast.While):
+            n = 0
+            while self.ev(s.test, env, mod):
+                n += 1
+                if n > 10000:
+                    raise Undecided("loop bound")
+                try:
+                    self.block(s.body, env, mod)
+                except _Break:
+                    break
+                except _Continue:
+                    continue
+            return
+        if isinstance(s, ast.Break):
+            raise _Break()
+        if isinstance(s, ast.Continue):
+            raise _Continue()
+        if isinstance(s, ast.Match):
+            subj = self.ev(s.subject, env, mod)
+            for c in s.cases:
+                if self._match(c.pattern, subj, env, mod) and (c.guard is None or self.ev(c.guard, env, mod)):
+                    self.block(c.body, env, mod)
+                    return
+            return
+        if isinstance(s, (ast.FunctionDef,)):
+            env[s.name] = Closure([a.arg for a in s.args.args], s.body, env, self, False)
+            return
+        raise Undecided(f"statement {type(s).__name__}")
+
+    def _match(self, pat, subj, env, mod) -> bool:
+        if isinstance(pat, ast.MatchValue):
+            v = self.ev(pat.value, env, mod)
+            if isinstance(v, Token) or isinstance(subj, Token):
+                return str(v) == str(subj)
+            return v == subj
+        if isinstance(pat, ast.MatchSingleton):
+            return subj is pat.value
+        if isinstance(pat, ast.MatchAs):
+            if pat.pattern is None:
+                if pat.name:
+                    env[pat.name] = subj
+                return True
+            return self._match(pat.pattern, subj, env, mod)
+        if isinstance(pat, ast.MatchOr):
+            return any(self._match(p, subj, env, mod) for p in pat.patterns)
+        raise Undecided("match pattern")
+
+
+class _Break(Exception):
+    pass
+
+
+class _Continue(Exception):
+    pass
+
+
+# ---------------------------------------------------------------------- convenience (older call sites)
+def ev(e: ast.AST, env: dict):
+    return Interp().ev(e, env)
 
 
 def run_block(stmts, env: dict, on_store=None):
-    """Execute a straight-line block with if/assign/return/raise/assert/expr; returns ('return', v) | ('raise', name) | ('fall', None).
-    Attribute stores are reported through on_store(target_text, value) and also kept in env."""
-    env = env
-    for s in stmts:
-        if isinstance(s, ast.Expr):
-            if isinstance(s.value, ast.Constant):
-                continue
-            if isinstance(s.value, ast.Call) and norm(s.value.func).split(".")[0] in ("_LOGGER", "LOGGER", "logging", "_logger", "self._logger"):
-                continue
-            ev(s.value, env)
-            continue
-        if isinstance(s, (ast.Assign, ast.AnnAssign)):
-            if s.value is None:
-                continue
-            v = ev(s.value, env)
-            tg = s.targets[0] if isinstance(s, ast.Assign) else s.target
-            env[norm(tg)] = v
-            if on_store is not None and not isinstance(tg, ast.Name):
-                on_store(norm(tg), v)
-            continue
-        if isinstance(s, ast.AugAssign):
-            cur = ev(s.target, env)
-            v = _BIN[type(s.op)](cur, ev(s.value, env))
-            env[norm(s.target)] = v
-            if on_store is not None and not isinstance(s.target, ast.Name):
-                on_store(norm(s.target), v)
-            continue
-        if isinstance(s, ast.If):
-            r = run_block(s.body if ev(s.test, env) else s.orelse, env, on_store)
-            if r[0] != "fall":
-                return r
-            continue
-        if isinstance(s, ast.Return):
-            return ("return", ev(s.value, env) if s.value is not None else None)
-        if isinstance(s, ast.Raise):
-            name = norm(s.exc.func) if isinstance(s.exc, ast.Call) else norm(s.exc) if s.exc is not None else "reraise"
-            return ("raise", name)
-        if isinstance(s, ast.Assert):
-            if not ev(s.test, env):
-                return ("raise", "AssertionError")
-            continue
-        if isinstance(s, ast.Pass):
-            continue
-        raise Undecided(f"statement {type(s).__name__}")
+    """('return', v) | ('raise', name) | ('fall', None)"""
+    it = Interp(on_store=on_store)
+    try:
+        it.block(stmts, env)
+    except _Return as r:
+        return ("return", r.value)
+    except Raises as exc:
+        return ("raise", exc.name)
     return ("fall", None)
+
+
+def repo_resolver(repo):
+    """Resolve plain names / imported names of functions defined in the analysed package."""
+
+    def resolve(name, mod):
+        if mod is None:
+            return None
+        if name in mod.functions:
+            return mod.functions[name], mod
+        r = repo.resolve_name(mod, name)
+        if r and r[0] in repo.modules and r[1] in repo.modules[r[0]].functions:
+            m2 = repo.modules[r[0]]
+            return m2.functions[r[1]], m2
+        return None
+
+    return resolve
